@@ -68,3 +68,7 @@ pub open spec fn lines_spec(s: Seq<char>) -> Seq<Seq<char>> { lines_from(s, 0) }
 pub fn v_lines(s: &str) -> (r: Vec<&str>)
     ensures r@.map_values(|x: &str| x@) == lines_spec(s@), r.len() < usize::MAX
 { s.lines().collect() }
+// R4b: X.parse::<i32>() -> v_parse_i32(&X)
+pub uninterp spec fn parse_i32_spec(s: Seq<char>) -> Option<i32>;
+#[verifier::external_body]
+pub fn v_parse_i32(s: &str) -> (r: Result<i32, ()>) ensures (r is Ok) == (parse_i32_spec(s@) is Some), r is Ok ==> r->Ok_0 == parse_i32_spec(s@)->0 { s.parse::<i32>().map_err(|_| ()) }
